@@ -16,7 +16,7 @@ from pydsol.core.experiment import Replication        # noqa: E402
 from pydsol.core.interfaces import SimulatorInterface, ReplicationInterface  # noqa: E402
 from pydsol.core.model import DSOLModel               # noqa: E402
 from pydsol.core.pubsub import EventListener          # noqa: E402
-from pydsol.core.simevent import SimEvent             # noqa: E402
+from pydsol.core.simevent import SimEvent, SimEventInterface   # noqa: E402
 from pydsol.core.simulator import (DEVSSimulatorFloat, DEVSSimulatorInt,  # noqa: E402
                                    DEVSSimulatorDuration, RunState,
                                    ReplicationState, ErrorStrategy)
@@ -176,6 +176,11 @@ class ProgramModel(DSOLModel):
             r.perform(self, eid, i, a)
         r.after_handler(self, eid)
 
+    def init_hook(self):
+        """Registered with Simulator.add_initial_method."""
+        for i, a in enumerate(self.r.prog.get("initial", ())):
+            self.r.perform(self, "init", i, a)
+
     def leaf(self, tag):
         """Handler of events scheduled by listeners (C07): no children."""
         r = self.r
@@ -184,6 +189,56 @@ class ProgramModel(DSOLModel):
         if r.ext is not None:
             r.ext.on_leaf(r, self, tag)
         r.after_handler(self, "L%s" % tag)
+
+
+class CustomEvent(SimEventInterface):
+    """An own implementation of SimEventInterface (documented as allowed): it
+    is not derived from SimEvent and has only what the interface prescribes,
+    plus the `_id` attribute the event list reads."""
+
+    def __init__(self, time, model, eid, priority):
+        self._time = time
+        self._model = model
+        self._eid = eid
+        self._priority = priority
+        # ids come from the same counter as SimEvent's so that scheduling
+        # order remains the tie-break across both kinds of event
+        self._id = SimEvent(time if isinstance(time, (int, float)) else 0.0, model, "h",
+                            eid=eid)._id
+
+    def execute(self):
+        self._model.h(eid=self._eid)
+
+    @property
+    def time(self):
+        return self._time
+
+    @property
+    def priority(self):
+        return self._priority
+
+    @property
+    def id(self):
+        return self._id
+
+    def _key(self):
+        return (self._time, -self._priority, self._id)
+
+    def __lt__(self, o):
+        return self._key() < (o.time, -o.priority, o._id)
+
+    def __eq__(self, o):
+        return self is o
+
+    __hash__ = object.__hash__
+
+
+class SizedProgramModel(ProgramModel):
+    """A legal but unusual model: it has a length (entities in the system),
+    which is 0 - i.e. the object is falsy - while the model is constructed."""
+
+    def __len__(self):
+        return 0 if not self.executed else self.executed
 
 
 class Runner:
@@ -241,7 +296,7 @@ class Runner:
             return DEVSSimulatorFloat("sim")
         if c == "int":
             return DEVSSimulatorInt("sim")
-        return DEVSSimulatorDuration("sim", self.unit)
+        return DEVSSimulatorDuration("sim", self.prog.get("display_unit") or self.unit)
 
     # -- hooks -------------------------------------------------------------
     def on_construct(self, model):
@@ -268,9 +323,21 @@ class Runner:
         if kind in ("now", "rel", "abs", "pre"):
             before = sim.eventlist().size()
             try:
+                child = a[1] if kind == "now" else a[2]
                 if kind == "pre":
                     ev = sim.schedule_event(model.prebuilt[a[2]])
-                    child = a[2]
+                elif self.prog.get("custom_events") and child % 3 == 0:
+                    # an own SimEventInterface implementation, handed over as an object
+                    if kind == "now":
+                        t, prio = sim.simulator_time, a[2]
+                    elif kind == "rel":
+                        d = self.tv(a[1])
+                        if not float(d) >= 0:
+                            raise DSOLError("negative delay")
+                        t, prio = sim.simulator_time + d, a[3]
+                    else:
+                        t, prio = self.tv(a[1]), a[3]
+                    ev = sim.schedule_event(CustomEvent(t, model, child, prio))
                 elif kind == "now":
                     ev = sim.schedule_event_now(model, "h", a[2], eid=a[1])
                     child = a[1]
@@ -580,7 +647,10 @@ class Runner:
         strategy = case.get("strategy")
         if strategy is not None:
             self.sim.set_error_strategy(strategy)
-        self.model = ProgramModel(self.sim, self)
+        cls = SizedProgramModel if case.get("sized_model") else ProgramModel
+        self.model = cls(self.sim, self)
+        if self.prog.get("initial"):
+            self.sim.add_initial_method(self.model, "init_hook")
         hooks = {}
         if self.listener_cmds:
             hooks = {n: self.listener_hook for n in self.listener_cmds}
